@@ -1,17 +1,19 @@
 import Driver.Util
 import LemoModel.Journal
+import LemoModel.JournalDirty
 import LemoModel.MergeLogs
 import LemoModel.CopyHeap
 import LemoModel.CopySlice
 namespace Driver.C07
-open LemoModel.Journal Driver
+open LemoModel.Journal LemoModel.JournalDirty Driver
 
 structure D where
   init : Nat → Acct := fun _ => {}
-  st : St := { accts := fun _ => {} }
-  /-- mirrors the code under test: both fixes are in the current tree -/
-  rc : Bool := true
-  en : Bool := true
+  /-- the journal with its pending-write layer (LemoModel.JournalDirty); `ds.st` is the Journal model's state -/
+  ds : DSt := { st := { accts := fun _ => {} } }
+  /-- mirrors the code under test: undo of a storage / asset-id / equity write leaves no pending write (fix 3a69bc7) -/
+  xu : Bool := true
+  -- counter restore (5712ccd) and nil-equity undo (1ec51f5) are in the current tree: `revertD` runs `revert true true`
   codes : List Nat := []
 
 def joinWith (sep : String) (l : List String) : String := sep.intercalate l
@@ -41,10 +43,35 @@ def dumpAcct (i : Nat) (a : Acct) : String :=
   let sto := joinWith "," ([1, 2, 3].map fun k => toString (a.getStorage k))
   s!"{p}assetcode={ac} {p}assetid={ai} {p}bal={a.balance} {p}code={showCode a} {p}codehash={showCodeHash a.codeHash} {p}equity={eq} {p}profile={prof} {p}roots={r a.sRoot}{r a.acRoot}{r a.aiRoot}{r a.eRoot} {p}signers={sg} {p}storage={sto} {p}sui={a.suicided} {p}votefor={a.voteFor} {p}votes={a.votes} "
 
-def dump (s : St) : String :=
+def showKeys (l : List Nat) : String := joinWith "," (l.map toString)
+
+/-- the key sets of the four `dirty` maps of every account, as `VerifDirtyKeys` returns them -/
+def dumpDirty (d : Nat → Dirty) : String :=
+  String.join ([0, 1, 2, 3].map fun i =>
+    let x := d i
+    s!"{i}[{showKeys x.s}|{showKeys x.ac}|{showKeys x.ai}|{showKeys x.e}]")
+
+def dump (ds : DSt) : String :=
+  let s := ds.st
   let accts := String.join ([0, 1, 2, 3].map fun i => dumpAcct i (s.accts i))
   let j := String.join (s.logs.map fun l => s!"{l.addr}.{l.ty}.{l.ver},")
-  accts ++ "J:" ++ j
+  "D:" ++ dumpDirty ds.dirty ++ " " ++ accts ++ "J:" ++ j
+
+/-- label of the NEW root of a published root log: the trie now holds exactly what the getters return.
+    E = the empty trie's hash, R = the root the account was loaded with, X = anything else.
+    The harness' key universe is 1..3; queued keys are looked at too. -/
+def newRootLabel (a : Acct) (d : Dirty) (ty : Nat) : String :=
+  let lab (ks : List Nat) (empty same : Nat → Bool) : String :=
+    if ks.all empty then "E" else if ks.all same then "R" else "X"
+  if ty = tStorageRoot then lab ([1, 2, 3] ++ d.s) (fun k => a.storage k == 0) (fun k => a.storage k == a.com.storage k)
+  else if ty = tAssetCodeRoot then lab ([1, 2, 3] ++ d.ac) (fun k => a.assetCode k == none) (fun k => a.assetCode k == a.com.assetCode k)
+  else if ty = tAssetIdRoot then lab ([1, 2, 3] ++ d.ai) (fun k => a.assetId k == 0) (fun k => a.assetId k == a.com.assetId k)
+  else lab ([1, 2, 3] ++ d.e) (fun k => a.equity k == none) (fun k => a.equity k == a.com.equity k)
+
+def showPLog (ds : DSt) (l : PLog) : String :=
+  match l.root with
+  | none => s!"{l.addr}.{l.ty}.{l.ver}"
+  | some old => s!"{l.addr}.{l.ty}.{l.ver}:{if old then "R" else "0"}>{newRootLabel (ds.st.accts l.addr) (ds.dirty l.addr) l.ty}"
 
 def parseSigners : List String → Option (List (Nat × Nat))
   | [] => some []
@@ -198,22 +225,26 @@ def step (d : D) (w : List String) : D × String :=
     | none => (d, "bad-op")
   | ["reset"] =>
     let s : St := { accts := fun i => { d.init i with com := { (d.init i).com with codes := d.codes } } }
-    ({ d with st := s }, "ok | " ++ dump s)
+    let ds : DSt := { st := s }
+    ({ d with ds := ds }, "ok | " ++ dump ds)
   | ["snap"] =>
-    let (s, o) := snapshot d.st
-    ({ d with st := s }, showOut o ++ " | " ++ dump s)
+    let (s, o) := snapshotD d.ds
+    ({ d with ds := s }, showOut o ++ " | " ++ dump s)
   | ["rev", id] =>
     match id.toNat? with
     | none => (d, "bad-op")
     | some id =>
-      let (s, o) := revert d.rc d.en d.st id
-      if o == .panic then (d, "panic") else ({ d with st := s }, showOut o ++ " | " ++ dump s)
+      let (s, o) := revertD d.xu d.ds id
+      if o == .panic then (d, "panic") else ({ d with ds := s }, showOut o ++ " | " ++ dump s)
   | "w" :: i :: rest =>
     match i.toNat?, parseWrite rest with
     | some i, some wr =>
-      let (s, o) := write d.st i wr
-      if o == .panic then (d, "panic") else ({ d with st := s }, showOut o ++ " | " ++ dump s)
+      let (s, o) := writeD d.ds i wr
+      if o == .panic then (d, "panic") else ({ d with ds := s }, showOut o ++ " | " ++ dump s)
     | _, _ => (d, "bad-op")
+  | ["fin"] =>
+    -- MergeChangeLogs + Finalise on the manager as it is (the script ends here: the harness resets next)
+    (d, "fin " ++ joinWith "," ((publish d.ds).map (showPLog d.ds)))
   | _ => (d, "bad-op")
 
 end Driver.C07
